@@ -21,6 +21,20 @@ var tagCodecInverse = map[string]string{
 }
 
 func rulesSamCodec(c *Ctx, r *Report) {
+	rulesSamWriter(c, r)
+	rulesSamParser(c, r)
+	rulesTagTable(c, r)
+	rulesSplitTag(c, r)
+	rulesMapOrderFn(c, r, c.role("sam.tagsToText"), "formats/sam tag list")
+	rulesNoCsv(c, r, "formats/sam", []string{"ReaderHeader", "Reader", "File", "FileHeader"}, "(*SAM).Write")
+	rulesWholeLines(c, r, "formats/sam")
+	nl := rulesLineChain(c, r, "formats/sam")
+	r.floor("G5-lines", nl, 1, "ReadString line reader in sam.ReaderHeader")
+	rulesSamHeader(c, r)
+}
+
+// rulesSamWriter (G1, SAM-COL, FMT-CONST, 1L): the writer side of the SAM codec.
+func rulesSamWriter(c *Ctx, r *Report) {
 	ruleG1(c, r, "formats/sam", "SAM")
 	w := c.fn("formats/sam", "(*SAM).Write")
 	where := "formats/sam.(*SAM).Write"
@@ -114,15 +128,6 @@ func rulesSamCodec(c *Ctx, r *Report) {
 		}
 	}
 	r.check(okTags && okTagArg, "SAM-COL", where, "tags follow, TAB-separated", c.pos(w.Pos()), "every element of tagsToText(s.Tags) is written as TAB + text after the 11 columns", "the optional tags are not written as TAB-prefixed elements of tagsToText(s.Tags)")
-	rulesSamParser(c, r)
-	rulesTagTable(c, r)
-	rulesSplitTag(c, r)
-	rulesMapOrderFn(c, r, c.role("sam.tagsToText"), "formats/sam tag list")
-	rulesNoCsv(c, r, "formats/sam", []string{"ReaderHeader", "Reader", "File", "FileHeader"}, "(*SAM).Write")
-	rulesWholeLines(c, r, "formats/sam")
-	nl := rulesLineChain(c, r, "formats/sam")
-	r.floor("G5-lines", nl, 1, "ReadString line reader in sam.ReaderHeader")
-	rulesSamHeader(c, r)
 }
 
 // rulesSamParser: parser column table.
